@@ -923,12 +923,13 @@ Error query_rw_info(Arch arch, const BaseInst& inst, const Operand_* operands, s
       uint64_t r_byte_mask = rw_op_data.r_byte_mask;
       uint64_t w_byte_mask = rw_op_data.w_byte_mask;
 
+      // The size comes from the operand signature, which is not validated against the register type (clamp to 64).
       if (op.is_read()  && !r_byte_mask) {
-        r_byte_mask = Support::lsb_mask<uint64_t>(src_op.x86_rm_size());
+        r_byte_mask = Support::lsb_mask<uint64_t>(Support::min<uint32_t>(src_op.x86_rm_size(), 64u));
       }
 
       if (op.is_write() && !w_byte_mask) {
-        w_byte_mask = Support::lsb_mask<uint64_t>(src_op.x86_rm_size());
+        w_byte_mask = Support::lsb_mask<uint64_t>(Support::min<uint32_t>(src_op.x86_rm_size(), 64u));
       }
 
       op._read_byte_mask = r_byte_mask;
